@@ -134,9 +134,19 @@ class StubRule(rule.Rule):
 _TEMPLATE = {}
 
 
-def make_rule_list(rules, oFile):
-    """a real rule_list object around stub rules (constructor bypassed: it would load the ~1000 shipped rules)"""
+def make_rule_list(rules, oFile, real_init=False):
+    """a real rule_list object around stub rules (constructor bypassed: it would load the ~1000 shipped rules).
+    With real_init the shipped constructor itself runs, with only its rule loader answering with the stubs - for harnesses whose
+    verdict must not depend on which attributes the constructor derives from the rules."""
     from vsg import rule_list
+
+    if real_init:
+        saved = rule_list.load_rules
+        rule_list.load_rules = lambda: list(rules)
+        try:
+            return rule_list.rule_list(oFile, severity.create_list({}))
+        finally:
+            rule_list.load_rules = saved
 
     rl = rule_list.rule_list.__new__(rule_list.rule_list)
     # start from the attributes the real constructor sets (built once per process), then swap the ~1000 shipped rules for the stubs
